@@ -61,6 +61,39 @@ def run(ctx: Context, rep) -> None:
             f"option) instances, floor is 20")
 
     rep.rule(
+        "C12.delegate",
+        "when an interface delegates its data path to another "
+        "selection-carrying function (another interface, the common shard "
+        "stream, the Rust generator), every selection option the delegating "
+        "function accepts is accepted by the delegate as well - otherwise "
+        "the option is silently dropped on that path")
+    sel_fq = ctx.fn(C.SHARD_PATHS).fq
+    from sa.rules.common import calls_with_lambdas
+    n_del = 0
+    for a in funcs:
+        _state, have = C.option_sources(ctx, a)
+        for call, _anchor in calls_with_lambdas(a):
+            for b in ctx.internal_targets(a, call):
+                if b not in funcs or b is a or b.fq == sel_fq:
+                    continue
+                n_del += 1
+                b_init = b.cls.methods.get("__init__") if b.cls else None
+                b_accepts = set(b.params()) | (
+                    set(b_init.params()) if b_init is not None and
+                    b.name != "__init__" else set())
+                for p in OPTIONS:
+                    if p in have:
+                        rep.ob("C12.delegate", p in b_accepts,
+                               loc=a.loc(call), where=a.qualname,
+                               construct=f"{a.qualname} -> {b.qualname} "
+                               f"[{p}]",
+                               message=f"`{p}` is accepted by "
+                               f"{a.qualname} but the delegate "
+                               f"{b.qualname} has no such parameter")
+    if n_del < 3 and not rep.violations:
+        raise AnalysisError(f"C12.delegate: {n_del} delegation edges, floor 3")
+
+    rep.rule(
         "C12.stored",
         "a constructor that accepts a selection option stores it in a field "
         "(so the later call can forward it)")
@@ -246,6 +279,23 @@ def check_select(ctx: Context, rep, sel) -> None:
                                     isinstance(x, ast.Constant) and x.value == 1
                                     for x in (b.left, b.right))
                                 for b in ast.walk(val))
+            # the grouping key is an injective function of the metadata
+            INJECTIVE = {"tuple", "sorted", "frozenset", "items", "str",
+                         "repr", "dumps", "list"}
+            lossy = sorted({
+                (x.func.id if isinstance(x.func, ast.Name) else x.func.attr)
+                for st in loop.body[:max(idx, 0)] for x in ast.walk(st)
+                if isinstance(x, ast.Call) and isinstance(
+                    x.func, (ast.Name, ast.Attribute)) and any(
+                        isinstance(y, ast.Attribute) and
+                        y.attr == "custom_metadata" for y in ast.walk(x))
+            } - INJECTIVE)
+            rep.ob("C12.select", not lossy, loc=sel.loc(c), where=sel.qualname,
+                   construct="group key built with " + (
+                       ", ".join(lossy) if lossy else
+                       "tuple/sorted/items only"),
+                   message="the per-metadata counter key must distinguish "
+                   "distinct metadata values (hash/id/len are not injective)")
             # the grouping key derives from the shard's custom_metadata
             key_ok = any(
                 isinstance(x, ast.Attribute) and x.attr == "custom_metadata"
@@ -441,6 +491,14 @@ SELFTESTS = [
          path="src/sedpack/io/dataset_iteration.py",
          old="if counts[k] <= custom_metadata_type_limit:",
          new="if counts[k] < custom_metadata_type_limit:"),
+    dict(rule="C12.select", name="hashed-group-key", expect="fire",
+         path="src/sedpack/io/dataset_iteration.py",
+         old="                k = tuple(sorted(shard_info.custom_metadata.items()))",
+         new="                k = hash(tuple(sorted(shard_info.custom_metadata.items())))"),
+    dict(rule="C12.delegate", name="tfdataset-via-rust", expect="fire",
+         path="src/sedpack/io/dataset_iteration.py",
+         old="                lambda: self.as_numpy_iterator_concurrent(\n                    split=split,\n                    process_record=None,  # otherwise unknown tensorspec\n                    shards=shards,\n                    custom_metadata_type_limit=custom_metadata_type_limit,\n                    shard_filter=shard_filter,\n                    repeat=repeat,\n                    file_parallelism=file_parallelism or 1,\n                    shuffle=shuffle,\n                ),",
+         new="                lambda: self.as_numpy_iterator_rust(\n                    split=split,\n                    process_record=None,\n                    shards=shards,\n                    shard_filter=shard_filter,\n                    repeat=repeat,\n                    file_parallelism=file_parallelism or 1,\n                    shuffle=shuffle,\n                ),"),
     dict(rule="C12.select", name="truncate-from-1", expect="fire",
          path="src/sedpack/io/dataset_iteration.py",
          old="shards_list = shards_list[:shards]",
